@@ -177,6 +177,12 @@ pub struct ConnectionId(u64);
 impl ConnectionId {
     /// Returns a fresh, process-unique connection id.
     fn next() -> Self {
+        // A simulator may supply the (per-run) counter, so that runs sharing one process do not
+        // influence each other through the process-global one (ids key hash maps).
+        #[cfg(iroh_verif)]
+        if let Some(v) = iroh_base::verif::stub("relay.connection_id.next", "").and_then(|v| v.parse().ok()) {
+            return Self(v);
+        }
         static NEXT: AtomicU64 = AtomicU64::new(0);
         Self(NEXT.fetch_add(1, Ordering::Relaxed))
     }
